@@ -18,6 +18,7 @@ import ast
 from fractions import Fraction
 
 import json
+from pathlib import Path
 
 from extract import REPO, find_class, find_func, lbool, llist, lstr, parse, run_in_repo
 
@@ -134,33 +135,119 @@ def ask(cls, field, x):
     return [c, s]
 
 
+import functools
+
+LATTICE = [0, 1, -1, 4, 3, 64, 65, 100000, 100001] + [2 ** i for i in range(1, 17)] + [10 ** i for i in range(1, 7)]
+
+
+def learn(cls, field, ks, integral):
+    """breakpoints of the accepted sets of both paths: the candidates, refined by bisection wherever the verdict changes
+    strictly inside an interval between two candidates (so the result does not depend on where the source keeps its
+    constants, or whether it has literals at all)"""
+    memo = {}
+
+    def v(x, path):
+        key = (type(x).__name__, repr(x))
+        if key not in memo:
+            memo[key] = ask(cls, field, x)
+        r = memo[key][path]
+        return bool(r)
+
+    if integral:
+        num, succ, pred = int, (lambda x: x + 1), (lambda x: x - 1)
+        far_lo, far_hi = -10 ** 12, 10 ** 12
+    else:
+        num = float
+        succ, pred = (lambda x: math.nextafter(x, math.inf)), (lambda x: math.nextafter(x, -math.inf))
+        far_lo, far_hi = -1e300, 1e300
+
+    def bisect(lo, hi, path):
+        a = v(lo, path)
+        if integral:
+            while hi - lo > 1:
+                mid = (lo + hi) // 2
+                if v(mid, path) == a:
+                    lo = mid
+                else:
+                    hi = mid
+            return [lo, hi]
+        while True:
+            mid = lo + (hi - lo) / 2
+            if not (lo < mid < hi):
+                break
+            if v(mid, path) == a:
+                lo = mid
+            else:
+                hi = mid
+        return [lo if len(repr(lo)) < len(repr(hi)) else hi]
+
+    ks = {num(k) for k in ks if not integral or float(k).is_integer()} | {num(k) for k in LATTICE}
+    # numbers quoted in the messages actually raised far outside / at a few plain values
+    import re
+    for x in (far_lo, far_hi, num(0), num(-1), float("nan")):
+        for f in (lambda: build(cls, {field: x}), lambda: setattr(build(cls, {}), field, x)):
+            try:
+                f()
+            except Exception as exc:
+                for m in re.findall(r"(?<![\w.])-?\d+(?:\.\d+)?(?:[eE][-+]?\d+)?(?![\w])", str(exc)):
+                    try:
+                        q = float(m)
+                        if abs(q) <= 1e12 and (not integral or q.is_integer()):
+                            ks.add(num(q))
+                    except ValueError:
+                        pass
+    for _ in range(12):
+        srt = sorted(ks)
+        new = set()
+        spans = [[far_lo, num(srt[0] - 1), pred(srt[0])]]
+        for a, b in zip(srt, srt[1:]):
+            if succ(a) >= b:
+                continue
+            mid = (a + b) // 2 if integral else a + (b - a) / 2
+            spans.append([succ(a), mid, pred(b)])
+        spans.append([succ(srt[-1]), num(srt[-1] + 1), far_hi])
+        for pts in spans:
+            pts = sorted(set(pts))
+            for path in (0, 1):
+                for p, q in zip(pts, pts[1:]):
+                    if v(p, path) != v(q, path):
+                        new.update(bisect(p, q, path))
+        new -= ks
+        if not new:
+            break
+        ks |= new
+    return sorted(ks), v
+
+
 out = []
 for e in SPEC:
-    cls, field, ks, integral = e["cls"], e["field"], sorted(set(e["consts"])), e["int"]
-    if integral:
-        ks = sorted({int(k) for k in ks if float(k).is_integer()})
-    if not ks:
-        ks = [0]
-    num = (lambda v: int(v)) if integral else (lambda v: float(v))
-    pts = []          # (kind, a, b, value)
-    pts.append(("below", None, ks[0], num(ks[0] - 1)))
+    cls, field, integral = e["cls"], e["field"], e["int"]
+    if not e["numeric"]:
+        out.append({"cls": cls, "field": field, "rows": [], "special": {}, "wrong": [ask(cls, field, v) for v in ("zz", (1, 2, 3), 5)]})
+        continue
+    ks, v = learn(cls, field, e["consts"], integral)
+    num = int if integral else float
+    pts = [("below", None, ks[0], num(ks[0] - 1))]
     for i, k in enumerate(ks):
-        pts.append(("at", k, k, num(k)))
+        pts.append(("at", k, k, k))
         if i + 1 < len(ks):
             a, b = k, ks[i + 1]
             if integral:
                 if b - a <= 1:
-                    continue            # no integer strictly between two neighbouring integers
-                mid = int((a + b) // 2)
+                    continue
+                mid = (a + b) // 2
             else:
-                mid = (a + b) / 2
+                mid = a + (b - a) / 2
+                if not (a < mid < b):
+                    continue
             pts.append(("between", a, b, mid))
     pts.append(("above", ks[-1], None, num(ks[-1] + 1)))
-    rows = [[kind, a, b, ask(cls, field, v)] for kind, a, b, v in pts]
+    rows = [[kind, a, b, [v(x, 0), v(x, 1)]] for kind, a, b, x in pts]
+    # drop the candidates at which nothing changes (keeps the table small and canonical)
     special = {"nan": ask(cls, field, float("nan")), "pinf": ask(cls, field, float("inf")), "ninf": ask(cls, field, float("-inf")),
-               "far_above": ask(cls, field, num(ks[-1] * 4 + 1000)), "far_below": ask(cls, field, num(-abs(ks[0]) * 4 - 1000))}
-    wrong = [ask(cls, field, v) for v in ("zz", (1, 2, 3), 5)] if not e["numeric"] else []
-    out.append({"cls": cls, "field": field, "rows": rows, "special": special, "wrong": wrong})
+               "far_above": [v(10 ** 12 if integral else 1e300, 0), v(10 ** 12 if integral else 1e300, 1)],
+               "far_below": [v(-10 ** 12 if integral else -1e300, 0), v(-10 ** 12 if integral else -1e300, 1)]}
+    out.append({"cls": cls, "field": field, "rows": rows, "special": special, "wrong": []})
 print(json.dumps(out))
 """
 
@@ -207,9 +294,19 @@ def public_fields():
         if init is None:
             continue
         setters = setters_of(cls)
-        ks = sorted(_numbers_in(mod))
-        if len(ks) > 60:      # e.g. interpolation tables: keep the integers and the extremes
-            ks = sorted({k for k in ks if k.denominator == 1} | set(ks[:5]) | set(ks[-5:]))
+        # candidates: numeric literals / numbers quoted in strings of EVERY module of the class's package (helpers and
+        # constants may live anywhere); the probe adds a lattice, the numbers of the raised messages, and bisection
+        ks = set(_numbers_in(mod))
+        pkg_dir = (REPO / rel).parent
+        top = REPO / "pyxel" / Path(rel).parts[1]
+        for f in sorted(top.rglob("*.py")):
+            try:
+                ks |= _numbers_in(ast.parse(f.read_text()))
+            except Exception:  # noqa: BLE001
+                pass
+        ks = sorted(k for k in ks if k.denominator == 1 or len(str(k.denominator)) <= 4)
+        if len(ks) > 80:
+            ks = sorted({k for k in ks if k.denominator == 1 and abs(k) <= 10**8})
         for a in init.args.args[1:] + init.args.kwonlyargs:
             if a.arg not in setters or a.annotation is None:
                 continue
